@@ -65,6 +65,7 @@ func (V *Verifier) load(patterns []string) error {
 	cfg := &packages.Config{
 		Mode: packages.NeedName | packages.NeedSyntax | packages.NeedTypes | packages.NeedTypesInfo | packages.NeedFiles | packages.NeedImports | packages.NeedDeps,
 		Dir:  V.repo,
+		BuildFlags: []string{"-tags=verif"},
 		Env:  append(os.Environ(), "GOFLAGS=-mod=mod", "GOPROXY=off", "GOSUMDB=off", "GOTOOLCHAIN=local"),
 	}
 	pkgs, err := packages.Load(cfg, patterns...)
@@ -342,9 +343,10 @@ func (fc *FuncCtx) addInputs(name string, v Val) {
 	case KString:
 		fc.inputs = append(fc.inputs, InputTerm{Name: name + ".len", Term: v.length(), Kind: "len"})
 		for i := 0; i < 12; i++ {
-			fc.inputs = append(fc.inputs, InputTerm{Name: fmt.Sprintf("%s[%d]", name, i), Term: sSel(v.content(), sInt(int64(i))), Kind: "elem"})
+			fc.inputs = append(fc.inputs, InputTerm{Name: fmt.Sprintf("%s[%d]", name, i), Term: v.at(sInt(int64(i))), Kind: "elem"})
 		}
 	case KSlice:
+		fc.inputArrs = append(fc.inputArrs, v.arr())
 		fc.inputs = append(fc.inputs, InputTerm{Name: name + ".len", Term: v.length(), Kind: "len"})
 		fc.inputs = append(fc.inputs, InputTerm{Name: name + ".cap", Term: v.capa(), Kind: "len"})
 		fc.inputs = append(fc.inputs, InputTerm{Name: name + ".arr", Term: v.arr(), Kind: "int"})
@@ -445,12 +447,42 @@ func (V *Verifier) checkExit(fc *FuncCtx, s *State, vals []Val, fi *FuncInfo, is
 			}
 		}
 		fc.declare(init, srt)
-		var goal string
 		if two {
-			goal = fmt.Sprintf("(forall ((g_a Int) (g_i Int)) (=> (and (<= 0 g_a) (< g_a g_alloc0) (not %s)) (= (select (select %s g_a) g_i) (select (select %s g_a) g_i))))", sOr(in...), cur, init)
-		} else {
-			goal = fmt.Sprintf("(forall ((g_a Int)) (=> (and (<= 0 g_a) (< g_a g_alloc0) (not %s)) (= (select %s g_a) (select %s g_a))))", sOr(in...), cur, init)
+			// (1) rows of arrays outside the footprint are unchanged
+			var arrs []string
+			seenA := map[string]bool{}
+			if h := fp[n]; h != nil {
+				for _, t := range h.targets {
+					if !seenA[t.arr] {
+						seenA[t.arr] = true
+						arrs = append(arrs, t.arr)
+					}
+				}
+			}
+			var notIn []string
+			for _, a := range arrs {
+				notIn = append(notIn, sNot(sEq("g_a", a)))
+			}
+			s.oblige("frame", n+"/other-arrays", fmt.Sprintf("(forall ((g_a Int)) (=> (and (<= 0 g_a) (< g_a g_alloc0) %s) (= (select %s g_a) (select %s g_a))))", sAnd(notIn...), cur, init), endPos)
+			// (2) inside a footprint array, cells outside the declared ranges are unchanged (index relative to the range start)
+			for k, a := range arrs {
+				var in []string
+				base := ""
+				for _, t := range fp[n].targets {
+					if base == "" && t.arr == a {
+						base = t.lo
+					}
+				}
+				idx := sAdd(base, "g_r")
+				for _, t := range fp[n].targets {
+					in = append(in, sAnd(sEq(a, t.arr), sCmp("<=", t.lo, idx), sCmp("<", idx, t.hi)))
+				}
+				s.oblige("frame", fmt.Sprintf("%s/outside-range%d", n, k+1), fmt.Sprintf("(forall ((g_r Int)) (=> (and (< %s g_alloc0) (not %s)) (= (select (select %s %s) %s) (select (select %s %s) %s))))", a, sOr(in...), cur, a, idx, init, a, idx), endPos)
+			}
+			continue
 		}
+		var goal string
+		goal = fmt.Sprintf("(forall ((g_a Int)) (=> (and (<= 0 g_a) (< g_a g_alloc0) (not %s)) (= (select %s g_a) (select %s g_a))))", sOr(in...), cur, init)
 		s.oblige("frame", n, goal, endPos)
 	}
 }
@@ -525,6 +557,12 @@ func (st *State) execGhost(c *Clause, pos token.Pos) {
 	}
 	env := fc.newSpecEnv(st, nil, fc.entrySnap, pos, fc.Name+"/ghost "+c.Name)
 	v := env.eval(c.Expr)
+	switch v.K {
+	case KBool:
+		v.S = st.define("ghost_"+c.Name, "Bool", v.S)
+	case KInt:
+		v.S = st.define("ghost_"+c.Name, "Int", v.S)
+	}
 	st.ghost[c.Name] = v
 	if fc.rec != nil {
 		fc.rec.ghosts[c.Name] = true
@@ -628,6 +666,44 @@ func (V *Verifier) verifyLemma(pkg string, lem *FuncContract) *FuncResult {
 	}
 	for _, u := range lem.Uses {
 		st.assumeLemma(u, token.NoPos)
+	}
+	if lem.Decreases != nil {
+		// well-founded induction: the statement may be used for all arguments with a smaller non-negative measure
+		m0 := env.eval(lem.Decreases.Expr).S
+		bind2 := map[string]Val{}
+		var decl []string
+		for _, p := range lem.LemmaPars {
+			srt := specSort(p.Type)
+			v := "g_ih_" + p.Name
+			decl = append(decl, "("+v+" "+srt+")")
+			switch srt {
+			case "Bool":
+				bind2[p.Name] = vBool(v)
+			case "Int":
+				bind2[p.Name] = vInt(v, nil)
+			default:
+				bind2[p.Name] = vRaw(v, srt)
+			}
+		}
+		q2 := 1000
+		env2 := &SpecEnv{st: st, names: bind2, pkg: fc.Pkg, what: "lemma " + lem.Key + " (IH)", qcount: &q2}
+		m1 := env2.eval(lem.Decreases.Expr).S
+		var pre, post []string
+		for _, r := range lem.Requires {
+			pre = append(pre, env2.evalBool(r.Expr))
+		}
+		for _, e := range lem.Ensures {
+			post = append(post, env2.evalBool(e.Expr))
+		}
+		ih := fmt.Sprintf("(forall (%s) %s)", strings.Join(decl, " "), sImp(sAnd(append(pre, sCmp("<=", "0", m1), sCmp("<", m1, m0))...), sAnd(post...)))
+		st.facts = st.facts.push(ih)
+		st.facts = st.facts.push(sCmp("<=", "0", m0)) // cases with a negative measure must be covered by a separate lemma or be vacuous
+		// the negative-measure case is a separate obligation
+		for i, e := range lem.Ensures {
+			neg := st.clone()
+			neg.facts = neg.facts.prev.prev.push(sCmp("<", m0, "0"))
+			neg.oblige("lemma", fmt.Sprintf("ensures%d/negative-measure", i+1), env.evalBool(e.Expr), token.NoPos)
+		}
 	}
 	for i, e := range lem.Ensures {
 		st.oblige("lemma", fmt.Sprintf("ensures%d", i+1), env.evalBool(e.Expr), token.NoPos)
